@@ -92,7 +92,7 @@ def input_tags(src):
         tags.append("in:def-at-expression-position")
     if re.search(r":[ \t]*\{[ \t]*\}", src):
         tags.append("in:empty-braces-as-type")
-    if re.search(r"\bdef[ \t]*\([ \t]*\)[ \t]*(\n|$)", src):
+    if re.search(r"\bdef[ \t]*\([ \t]*\)[ \t]*(\n|$|handle\b)", src):
         tags.append("in:empty-tuple-declared-without-value")
     if re.search(r'"[^"\n]*\{[^{}"\n]*"', src):
         tags.append("in:dq-string-in-interpolation")
